@@ -272,7 +272,6 @@ class ColumnInfo(Immutable):
                 # self._categories,
                 self._drop,
                 self._datatype,
-                self._descriptor,
             )
         )
 
